@@ -13,7 +13,10 @@ L1 and L2 and L3 together: reflected size/align/stride of every primitive is wha
  L4 (Engine B, closed terms): for 28 compound types (depth <= 2), size/stride/align read by the compiled core.meta from
     the tables the compiler emits (object-file data with relocations) = the stack slot allocated for `x : T` = the element
     step of generated indexing code = the documented rule; pairwise type-value equality. Two declaration orders.
-`any` and the get_type_info decoders are outside this check.
+    The same programs also evaluate get_type_info facts: member count, member offsets (against `^p.field` in generated
+    code), member types and names, optional / error-union / enum tag offsets, payload types, array length, pointer
+    mutability, distinct sub type.
+`any` is outside this check.
 """
 import re
 import z3
@@ -190,6 +193,30 @@ def compound_types():
     return decls, tys
 
 
+def read_str(mod, fn, data, relocs):
+    """runs a closed function returning `str` and reads the NUL-terminated bytes it points to"""
+    eng = ClifEngine(mod, max_visits=40, data=data)
+    eng.data_relocs = relocs
+    try:
+        paths = eng.run(mod.by_pretty(fn), [], ClifState())
+    except Unsupported:
+        return None
+    if len(paths) != 1 or paths[0].status != 'ret':
+        return None
+    ptr = z3.simplify(paths[0].ret[0])
+    if not z3.is_bv_value(ptr):
+        return None
+    out = bytearray()
+    for i in range(64):
+        b = z3.simplify(eng.load(paths[0], z3.BitVecVal(ptr.as_long() + i, 64), 1))
+        if not z3.is_bv_value(b):
+            return None
+        if b.as_long() == 0:
+            break
+        out.append(b.as_long())
+    return out.decode('latin1')
+
+
 def l4(chk, order):
     """L4 (Engine B, closed terms): for compound types, the size / stride / alignment that the compiled core.meta reads
     from the tables emitted by compile_meta_builtins equal (a) the stack slot the compiler allocates for `x : T`,
@@ -210,6 +237,44 @@ def l4(chk, order):
         lines.append('cslot_%d :: (p: ^%s) { x : %s = p^; }' % (k, t, t))
         lines.append('cstep_%d :: (p: ^[2]%s) -> ^%s { ^p[1] }' % (k, t, t))
         names += ['cid_%d' % k, 'cslot_%d' % k, 'cstep_%d' % k]
+    # structure reflection (get_type_info): one closed function per reported fact; `want` is the documented value,
+    # `code` (when present) a function whose generated code reveals the value really used
+    facts = []      # (function name, kind of fact, type source, want, code function or None)
+
+    def fact(k, tag, body, want, code=None, ret='usize'):
+        fn = 'ti_%d_%s' % (k, tag)
+        lines.append('%s :: () -> %s { switch i in meta.get_type_info(%s) { %s } }' % (fn, ret, tys[k].src(), body))
+        names.append(fn); facts.append((fn, tag, tys[k].src(), want, code))
+    for k in idx:
+        ty = tys[k]
+        if ty.kind == 'struct':
+            offs, _ = ty.offsets()
+            fact(k, 'members', '.Struct => i.members.len, _ => 99999', len(ty.fields))
+            for j, ((fname, ft), off) in enumerate(zip(ty.fields, offs)):
+                lines.append('cfld_%d_%d :: (p: ^%s) -> ^%s { ^p.%s }' % (k, j, ty.src(), ft.src(), fname)); names.append('cfld_%d_%d' % (k, j))
+                fact(k, 'off%d' % j, '.Struct => i.members[%d].offset, _ => 99999' % j, off, 'cfld_%d_%d' % (k, j))
+                fact(k, 'mty%d' % j, '.Struct => i.members[%d].ty == %s, _ => false' % (j, ft.src()), 1, ret='bool')
+                fact(k, 'name%d' % j, '.Struct => i.members[%d].name, _ => ""' % j, fname, ret='str')
+        elif ty.kind == 'opt':
+            fact(k, 'sub', '.Optional => i.sub_ty == %s, _ => false' % ty.sub.src(), 1, ret='bool')
+            fact(k, 'nonzero', '.Optional => i.is_non_zero, _ => false', 1 if ty.sub.kind == 'ptr' else 0, ret='bool')
+            if ty.sub.kind != 'ptr':
+                fact(k, 'tagoff', '.Optional => i.discriminant_offset, _ => 99999', ty.tag_offset())
+        elif ty.kind == 'err':
+            fact(k, 'errty', '.Error_Union => i.error_ty == %s, _ => false' % ty.err.src(), 1, ret='bool')
+            fact(k, 'okty', '.Error_Union => i.payload_ty == %s, _ => false' % ty.ok.src(), 1, ret='bool')
+            fact(k, 'tagoff', '.Error_Union => i.discriminant_offset, _ => 99999', ty.tag_offset())
+        elif ty.kind == 'enum':
+            fact(k, 'variants', '.Enum => i.variants.len, _ => 99999', len(ty.variants))
+            fact(k, 'tagoff', '.Enum => i.discriminant_offset, _ => 99999', ty.tag_offset())
+        elif ty.kind == 'array':
+            fact(k, 'len', '.Array => i.len, _ => 99999', ty.n)
+            fact(k, 'sub', '.Array => i.sub_ty == %s, _ => false' % ty.sub.src(), 1, ret='bool')
+        elif ty.kind == 'ptr':
+            fact(k, 'mutable', '.Pointer => i.mutable, _ => false', 1 if ty.mutable else 0, ret='bool')
+            fact(k, 'sub', '.Pointer => i.sub_ty == %s, _ => false' % ty.sub.src(), 1, ret='bool')
+        elif ty.kind == 'distinct':
+            fact(k, 'sub', '.Distinct => i.sub_ty == %s, _ => false' % ty.sub.src(), 1, ret='bool')
     eqn = min(len(tys), 14)
     for i in range(eqn):
         for j in range(eqn):
@@ -267,6 +332,26 @@ def l4(chk, order):
             key = {'kind': 'reflect-compound', 'type_kind': ty.kind, 'symptom': 'size/stride/align'}
             what = 'type %s (%s order): core.meta reports size %d stride %d align %d but %s' % (ty.src(), order, rsize, rstride, ralign, '; '.join(bad))
             chk.report(key, what, replaylib.make_compile_replay('C18', 'compound_%s_%d' % (order, k), src, '', what, key))
+    nfacts = 0
+    for fn, tag, tsrc, want, code in facts:
+        nfacts += 1
+        if tag.startswith('name'):
+            got = read_str(mod, fn, data, relocs)
+        else:
+            v, paths = const_of(fn)
+            got = v.as_long() if (v is not None and z3.is_bv_value(v)) else None
+        used = None
+        if code is not None:
+            p = z3.BitVec('p', 64)
+            sv, _ = const_of(code, [p])
+            if sv is not None:
+                d = z3.simplify(sv - p)
+                used = d.as_long() if z3.is_bv_value(d) else None
+        if got != want or (code is not None and used is not None and used != got):
+            key = {'kind': 'reflect-structure', 'fact': ''.join(c for c in tag if not c.isdigit())}
+            what = 'type %s (%s order): get_type_info reports %s = %r, the documented value is %r%s' % (tsrc, order, tag, got, want, ', generated code uses %r' % used if code else '')
+            chk.report(key, what, replaylib.make_compile_replay('C18', 'fact_%s_%s' % (order, fn), src, '', what, key))
+    chk.cov['structure_facts_checked'] = chk.cov.get('structure_facts_checked', 0) + nfacts
     for i in range(eqn):
         for j in range(eqn):
             v, paths = const_of('teq_%d_%d' % (i, j))
@@ -295,7 +380,8 @@ def run(chk, tier, seed):
     chk.cov['explanation'] = 'L1: paths of the real simple_id functions over all field values; L2: paths of the compiled core.meta decoders over all simple ids; L3: closed terms per primitive (recorded as closed_terms, not as solver verdicts)'
     chk.bounds.update({'L1': 'disc < 63, size < 31, align < 15 (the asserted domain), bit widths {0,8,16,32,64,128}', 'L2': 'all 2^30 type ids whose discriminant is < 16',
                        'L3': [p[0] for p in PRIMS], 'L4': '28 compound types of depth <= 2 (structs, enums, distincts, optionals incl. nested, error unions, arrays, pointers) in two declaration orders; 14 x 14 type equalities',
-                       'outside_claim': ['`any`', 'get_type_info decoders (field names / member offsets / variants through reflection)', 'compound types deeper than 2']})
+                       'L4_facts': 'get_type_info: member count / offsets / types / names, tag offsets, payload and element types, array length, pointer mutability',
+                       'outside_claim': ['`any`', 'variant discriminant values through reflection', 'compound types deeper than 2']})
     chk.assumptions.extend(['hook codegen::verif_hooks::convert (add-only)', 'the meta_type_to_u32 builtin is executed from its printed CLIF',
                             'rustc 1.88 LLVM IR at opt-level 1 (L1); Cranelift opcode semantics as documented (L2, L3)'])
 
